@@ -5,7 +5,8 @@
    and returned the pools out" ([iter] = iteration order of the ByName map, irrelevant by C18).
    All statements are about the resource list in ANY order (config.For itself does not sort). *)
 From Coq Require Import List NArith Permutation.
-From Verif Require Import Model.Cfg Proofs.NetP Proofs.CfgSummP Proofs.CfgFuelP Proofs.CfgP Proofs.CfgRouteP Proofs.CfgL2P Proofs.CfgPrefix.
+From Verif Require Import Model.Cfg Proofs.NetP Proofs.CfgSummP Proofs.CfgFuelP Proofs.CfgP Proofs.CfgRouteP Proofs.CfgL2P Proofs.CfgAggP Proofs.CfgPrefix.
+From Verif Require Import Model.CfgFull Proofs.CfgFullP.
 Local Open Scope N_scope.
 
 (* ipaddr.Summarize: the prefixes returned for the inclusive range [s,e] cover exactly the
@@ -26,6 +27,15 @@ Theorem C08_parse_addr_exact : forall a ps, parse_addr a = Some ps ->
   (forall x, in_prefixes ps x <-> addr_denotes a x) /\ ForallOrdPairs disjoint ps /\
   Forall (fun p => aligned p /\ wf_prefix p) ps.
 Proof. exact parse_addr_exact. Qed.
+
+(* ... and every well-formed entry is accepted (nothing the user may write is lost) *)
+Theorem C08_parse_accepts_wellformed : forall a,
+  match a with
+  | ACidr p => wf_prefix p
+  | AMapped b l => l <= 128 /\ b < 2 ^ 32
+  | ARange s e => ip_fam s = ip_fam e /\ ip_val s <= ip_val e /\ wf_ip e
+  end -> parse_addr a <> None.
+Proof. exact parse_accepts_wellformed. Qed.
 
 (* families are not mixed inside an accepted range (after fix F5) *)
 Theorem C08_range_one_family : forall s e ps, parse_addr (ARange s e) = Some ps ->
@@ -128,6 +138,57 @@ Theorem C08_one_route_one_localpref : forall iter r out p, pools_for iter r = So
   ForallOrdPairs (fun a b => forall x n pr, announces p a x n pr -> announces p b x n pr ->
                                             route a x = route b x -> ba_lp a = ba_lp b) (p_bgp p).
 Proof. exact one_route_one_localpref. Qed.
+
+(* ... and at most one of every class: the L2 advertisements of an accepted pool are pairwise
+   different for containsAdvertisement, so Pool.L2Advertisements is exactly the set of
+   advertisements that name or select the pool *)
+Theorem C08_l2_no_duplicates : forall iter r out p, pools_for iter r = Some out -> In p (po_pools out) ->
+  ForallOrdPairs (fun a b => l2adv_eqb a b = false) (p_l2 p).
+Proof. exact l2_no_duplicates. Qed.
+
+Theorem C08_l2adv_eqb_exact : forall a b, l2adv_eqb a b = true <->
+  la_all a = la_all b /\ la_nodes a = la_nodes b /\ setN (la_ifaces a) = setN (la_ifaces b).
+Proof. exact l2adv_eqb_spec. Qed.
+
+(* range-written entries: what validateBGPAdvPerPool guarantees is one block per entry (the
+   largest one of the summarised range) inside which aggregates stay ... *)
+Theorem C08_aggregate_in_some_block : forall iter r out c, pools_for iter r = Some out -> In c (r_pools r) ->
+  exists p, In p (po_pools out) /\ p_name p = pl_name c /\
+    forall a cs b, In a (pl_addrs c) -> parse_addr a = Some cs -> cs <> [] -> In b (p_bgp p) ->
+      exists q, In q cs /\ plen q <= agg_of b (pfam q) /\
+        forall x y, contains q x = true -> contains (mask_to (agg_of b (pfam q)) x) y = true -> contains q y = true.
+Proof. exact aggregate_in_some_block. Qed.
+
+(* ... and no more: for a pool written as the range 0.0.0.2-0.0.0.7 an accepted advertisement
+   with aggregationLength 30 aggregates the pool address 0.0.0.2 to 0.0.0.0/30, which contains
+   an address outside the pool.  (The property restricts the clause to pools written as CIDRs.) *)
+Theorem C08_aggregate_in_range_refuted :
+  exists r out p b x y, pools_for (fun l => l) r = Some out /\ In p (po_pools out) /\ In b (p_bgp p) /\
+    in_prefixes (p_cidrs p) x /\ contains (mask_to (agg_of b (ip_fam x)) x) y = true /\
+    ~ in_prefixes (p_cidrs p) y.
+Proof. exact aggregate_in_range_refuted. Qed.
+
+(* the whole config.For (Model/CfgFull.v): an accepted configuration never advertises a pool
+   that contains IPv6 to a peer whose BFD profile has echo mode (validateConfig) ... *)
+Theorem C08_no_echo_towards_ipv6_pool : forall iter m fr c, full_for iter m fr = Some c ->
+  forall p a, In p (po_pools (fc_pools c)) -> (exists x, In x (p_cidrs p) /\ pfam x = F6) -> In a (p_bgp p) ->
+              ~ reaches_echo (fc_bfds c) (fc_peers c) a.
+Proof. exact accepted_no_echo_towards_v6. Qed.
+
+(* ... has unique pool, BFD profile, community alias and peer names, and every BFD profile a
+   peer refers to exists *)
+Theorem C08_accepted_names_unique : forall iter m fr c, full_for iter m fr = Some c ->
+  NoDup (map pl_name (f_pools fr)) /\ NoDup (map bf_name (f_bfds fr)) /\
+  NoDup (map fst (flat_map cm_aliases (f_comms fr))) /\ NoDup (map p_pname (fc_peers c)) /\
+  NoDup (map b_name (fc_bfds c)) /\ Forall (peer_ok (fc_bfds c)) (fc_peers c).
+Proof. exact accepted_names_unique. Qed.
+
+(* ... and its pools part is poolsFor of the same resources, so every C08 theorem above
+   applies to it *)
+Theorem C08_full_pools_are_pools_for : forall iter m fr c, full_for iter m fr = Some c ->
+  exists tbl bgp, comms_for (f_comms fr) = Some tbl /\ resolve_bgp tbl (f_bgp fr) = Some bgp /\
+                  pools_for iter (base_of fr bgp) = Some (fc_pools c).
+Proof. exact full_pools_are_pools_for. Qed.
 
 (* non-vacuity: a range crossing alignment boundaries, the F4 pair after the fix *)
 Example C08_nonvacuous :
